@@ -70,6 +70,7 @@ def shards(tier, seed):
                 out.append(dict(leg="tree-unsorted", func=func, k=k, part=part, nparts=nparts))
     bb2 = 3 if tier == "quick" else 4
     cfgs = graphcfg.reduce_cfgs(b["lattice_k"], bb2_max_k=bb2) + graphcfg.scan_cfgs(b["lattice_k"], bb2_max_k=0 if tier == "quick" else 3)
+    cfgs = cfgs + graphcfg.wide_cfgs(tier)
     for c in cfgs:
         out.append(dict(leg="order", cfg=c, max_states=b["max_states"]))
     from mc import ilv
@@ -242,6 +243,14 @@ def scan_tree_point(res, func, lab_tuple, k):
 # ----------------------------------------------------------------------------------------------- leg 2
 
 
+def _num(x):
+    """float view of a result (datetime/timedelta results through their integer representation, NaT -> NaN)"""
+    x = np.asarray(x)
+    if x.dtype.kind in "mM":
+        return np.where(np.isnat(x), np.nan, x.view("int64").astype(float))
+    return x.astype(float)
+
+
 def order_cfg(res, cfg, max_states):
     import dask
 
@@ -281,15 +290,26 @@ def order_cfg(res, cfg, max_states):
     except Exception:
         assembled = None
     if assembled is not None:
-        bad = rm.mismatch(np.asarray(assembled, dtype=float), np.asarray(sync[0], dtype=float), rtol=0)
+        bad = rm.mismatch(_num(assembled), _num(sync[0]), rtol=0)
         if bad.any():
             res.violate("order-vs-sync", cfg, dict(lattice=assembled), dict(sync=sync[0]), tags=dict(tags, kind="value"), size=size)
             return
     thr = dask.compute(*colls, scheduler="threads", num_workers=4)
     res.extra["threaded_smoke_runs"] += 1
-    if rm.mismatch(np.asarray(thr[0], dtype=float), np.asarray(sync[0], dtype=float), rtol=0).any():
+    if rm.mismatch(_num(thr[0]), _num(sync[0]), rtol=0).any():
         res.violate("order-threads-smoke", cfg, dict(threads=thr[0]), dict(sync=sync[0]), tags=dict(tags, kind="threads"), size=size)
         return
+    if cfg.get("wide"):
+        # breadth configs: the synchronous result is also compared with the eager call on the same data
+        try:
+            ref = eager()
+        except Exception:
+            ref = None
+        if ref is not None:
+            a, b_ = _num(sync[0]), _num(ref)
+            if a.shape != b_.shape or rm.mismatch(a, b_, rtol=1e-9).any():
+                res.violate("order-vs-eager", cfg, dict(sync=sync[0]), dict(eager=ref), tags=dict(tags, kind="eager"), size=size)
+                return
     if r["states"] > r["ntasks"] + 1:
         res.nontrivial += 1
     res.outcomes["ok"] += 1
